@@ -73,6 +73,21 @@ static Verdict check_c13(const GCase& c, Stats& st)
               if (!verify(log, &ctx, false, true, true, "non-const&", what)) return fail(what, "non-const&");
               if (ctx.seen != exp_ctx) return fail("mutations made through the non-const context are not what the caller sees afterwards", "non-const&");
               if (r.has_value() != has_plain || (has_plain && r.value().get_value().h != v_plain)) return fail("parse and context_parse disagree", "non-const&"); }
+            // (a2)/(a3) the shorter overloads (default options): context_parse(ctx, buffer) and context_parse(ctx, buffer, stream)
+            if (in.skip_ws && in.skip_nl)
+            {
+                { tpl::Ctx ctx; tpl::CallLog log; tpl::g_log = &log; auto r = p.context_parse(ctx, buf); tpl::g_log = nullptr;
+                  if (!verify(log, &ctx, false, true, true, "non-const& (ctx, buffer)", what)) return fail(what, "non-const& through context_parse(ctx, buffer)");
+                  if (ctx.seen != exp_ctx) return fail("mutations made through the non-const context are not what the caller sees afterwards", "non-const& through context_parse(ctx, buffer)");
+                  if (r.has_value() != has_plain || (has_plain && r.value().get_value().h != v_plain)) return fail("parse and context_parse disagree", "context_parse(ctx, buffer)"); }
+                { tpl::Ctx ctx; tpl::CallLog log; tpl::g_log = &log; std::ostringstream os3; auto r = p.context_parse(ctx, buf, os3); tpl::g_log = nullptr;
+                  if (!verify(log, &ctx, false, true, true, "non-const& (ctx, buffer, stream)", what)) return fail(what, "non-const& through context_parse(ctx, buffer, stream)");
+                  if (ctx.seen != exp_ctx) return fail("mutations made through the non-const context are not what the caller sees afterwards", "non-const& through context_parse(ctx, buffer, stream)");
+                  if (r.has_value() != has_plain || (has_plain && r.value().get_value().h != v_plain)) return fail("parse and context_parse disagree", "context_parse(ctx, buffer, stream)"); }
+                { const tpl::Ctx ctx; tpl::CallLog log; tpl::g_log = &log; std::ostringstream os3; auto r = p.context_parse(ctx, buf, os3); tpl::g_log = nullptr;
+                  if (!verify(log, &ctx, true, true, false, "const& (ctx, buffer, stream)", what)) return fail(what, "const& through context_parse(ctx, buffer, stream)");
+                  (void)r; }
+            }
             // (b) const lvalue
             { const tpl::Ctx ctx; tpl::CallLog log; tpl::g_log = &log; auto r = p.context_parse(ctx, opts, buf, ns); tpl::g_log = nullptr;
               if (!verify(log, &ctx, true, true, false, "const&", what)) return fail(what, "const&");
